@@ -63,7 +63,7 @@ func evalExprWithScope(ctx context.Context, v rel.Value, scope rel.Scope) (rel.V
 	case rel.String, rel.Bytes:
 		evaluated, err := EvalWithScope(ctx, ".", val.String(), scope)
 		if err != nil {
-			panic(err)
+			return nil, err
 		}
 		return evaluated, nil
 	}
